@@ -1020,4 +1020,8 @@ CASES = [
  dict(name="c04-string-flag-not-set-for-char", ids=["C04"], rule="C04.R6a", subs=[("core/DynamicFormatArgStore.h", "                  (mapped_type == fmtquill::detail::type::custom_type) ||\n                  (mapped_type == fmtquill::detail::type::char_type))", "                  (mapped_type == fmtquill::detail::type::custom_type))")]),
  dict(name="c04-store-clear-keeps-flag", ids=["C04"], rule="C04.R6b", subs=[("core/DynamicFormatArgStore.h", "    _dynamic_arg_list = detail::DynamicArgList{};\n    _has_string_related_type = false;", "    _dynamic_arg_list = detail::DynamicArgList{};")]),
  dict(name="c04-decoder-does-not-clear", ids=["C04"], rule="C04.R6c", subs=[(CDC, "  args_store.clear();\n  decode_and_store_arg<Args...>(buffer, &args_store);", "  if (sizeof...(Args) > 1) { args_store.clear(); }\n  decode_and_store_arg<Args...>(buffer, &args_store);")]),
+
+ dict(name="c01-next_power_of_two-returns-n", ids=["C01"], rule="C01.R5d", subs=[("core/MathUtilities.h", "  if (is_power_of_two(static_cast<uint64_t>(n)))\n  {\n    return n;\n  }", "  if (is_power_of_two(static_cast<uint64_t>(n)) || (n > 4096 && (n % 4096) == 0))\n  {\n    return n;\n  }")]),
+ dict(name="c01-next_power_of_two-stops-early", ids=["C01"], rule="C01.R5d", subs=[("core/MathUtilities.h", "  while (result < n)\n  {\n    result <<= 1;\n  }", "  while ((result << 1) < n)\n  {\n    result <<= 1;\n  }")]),
+ dict(name="c01-is_power_of_two-accepts-zero", ids=["C01"], rule="C01.R5d", subs=[("core/MathUtilities.h", "  return (number != 0) && ((number & (number - 1)) == 0);", "  return ((number & (number - 1)) == 0);")]),
 ]
